@@ -6,6 +6,7 @@
   big-endian length field (payload bytes, or child count for lists), big-endian payload.
 -/
 import GoSecs.Lemmas.Secs2
+import GoSecs.Lemmas.Secs2Gen
 import GoSecs.Gen.Consts
 import GoSecs.Gen.Funcs
 
@@ -27,6 +28,52 @@ theorem headerLen_gen (n : Nat) : Gen.secs2_headerLen (n : Int) = (headerLen n :
       simp [*]
     · have : ((n : Int) > 65535) := by omega
       simp [*]
+
+/-! ### Functions regenerated from secs2/item.go and the per-type files
+
+  `Gen.secs2_*` are re-translated from the working tree by tools/go2lean on every run (proofs of the ties in
+  GoSecs/Lemmas/Secs2Gen.lean). -/
+
+/-- `appendHeaderBytesFC`: the size cap, the format byte `fc<<2 + number of length bytes` (as `byte` arithmetic),
+    the MINIMAL number of big-endian length bytes — it appends exactly the model's `header fc n`, for every
+    destination, format code and length; and `lenBytes[3-lenByteCount:]` is never out of range. -/
+theorem appendHeaderBytesFC_gen (dst : Bytes) (fc n : Nat) :
+    Gen.secs2_appendHeaderBytesFC dst (fc : Int) (n : Int) =
+      some (if n > maxByteSize then (dst, some "size limit exceeded") else (dst ++ header fc n, none)) :=
+  Secs2.appendHeaderBytesFC_gen dst fc n
+
+/-- `EncodedLen` of every leaf item kind (deferred error → 0, decoder-owned raw bytes → their length, else
+    `headerLen(n) + n` with the kind's payload length `n`): string kinds use the byte length, the localized
+    string `len + 2` in BOTH terms, numeric kinds `size × byteSize`. -/
+theorem encodedLen_strings_gen (a : Gen.secs2_ASCIIItem) (j : Gen.secs2_JIS8Item) (b : Gen.secs2_BinaryItem)
+    (l : Gen.secs2_LocalizedStrItem) :
+    (Gen.secs2_ASCIIItem_EncodedLen a =
+      if a.baseItem.itemErr.isSome then 0 else if a.baseItem.rawPtr then a.baseItem.rawLen
+      else (encodedLen (.ascii a.value) : Int)) ∧
+    (Gen.secs2_JIS8Item_EncodedLen j =
+      if j.baseItem.itemErr.isSome then 0 else if j.baseItem.rawPtr then j.baseItem.rawLen
+      else (encodedLen (.jis8 j.value) : Int)) ∧
+    (Gen.secs2_BinaryItem_EncodedLen b =
+      if b.baseItem.itemErr.isSome then 0 else if b.baseItem.rawPtr then b.baseItem.rawLen
+      else (encodedLen (.binary b.values) : Int)) ∧
+    (Gen.secs2_LocalizedStrItem_EncodedLen l =
+      if l.baseItem.itemErr.isSome then 0 else if l.baseItem.rawPtr then l.baseItem.rawLen
+      else (encodedLen (.lstr l.lsh.toNat l.value) : Int)) ∧
+    Gen.secs2_LocalizedStrItem_Size l = ((l.value.length + 2 : Nat) : Int) :=
+  ⟨asciiEncodedLen_gen a, jis8EncodedLen_gen j, binaryEncodedLen_gen b, lstrEncodedLen_gen l, lstrSize_gen l⟩
+
+theorem encodedLen_numeric_gen (b : Gen.secs2_baseItem) (sc : Int) (sb vals : Bool) (w : Width) (fw : FWidth)
+    (bs : List Bool) (is : List Int) (us fs : List Nat) :
+    (Gen.secs2_BooleanItem_EncodedLen { size := (bs.length : Int), scalar := sb, baseItem := b, values := vals } =
+      if b.itemErr.isSome then 0 else if b.rawPtr then b.rawLen else (encodedLen (.boolean bs) : Int)) ∧
+    (Gen.secs2_IntItem_EncodedLen { size := (is.length : Int), byteSize := (w.bytes : Int), scalar := sc, baseItem := b, values := vals } =
+      if b.itemErr.isSome then 0 else if b.rawPtr then b.rawLen else (encodedLen (.int w is) : Int)) ∧
+    (Gen.secs2_UintItem_EncodedLen { size := (us.length : Int), byteSize := (w.bytes : Int), scalar := sc, baseItem := b, values := vals } =
+      if b.itemErr.isSome then 0 else if b.rawPtr then b.rawLen else (encodedLen (.uint w us) : Int)) ∧
+    (Gen.secs2_FloatItem_EncodedLen { size := (fs.length : Int), byteSize := (fw.bytes : Int), baseItem := b, values := vals } =
+      if b.itemErr.isSome then 0 else if b.rawPtr then b.rawLen else (encodedLen (.float fw fs) : Int)) :=
+  ⟨booleanEncodedLen_gen b sb vals bs, intEncodedLen_gen b sc vals w is, uintEncodedLen_gen b sc vals w us,
+   floatEncodedLen_gen b vals fw fs⟩
 
 theorem consts_gen :
     Gen.secs2_MaxByteSize = (maxByteSize : Int) ∧ Gen.secs2_MaxListDepth = (maxListDepth : Int) ∧
